@@ -17,6 +17,9 @@ Protocol (one case = one schema + one Chaperone):
   resetstats
   new / use <i>                          several Chaperones stay alive in one case; `use` addresses instance i
   tune remove:<s>|reverse|append:<s>|clear   in-place edit of the addressed instance's public `strategies` list -> the list
+  newsub <ctor> <pattern ids> <repair ids>   an instance of a subclass that overrides the two public regex tables
+  tables <pattern ids> <repair ids>      re-assign the addressed instance's public regex tables (ids 5 / 10 = extra entries)
+  map <fn>                               FoldedProtein.map on the last plain report -> valid structId err echo attempts called
   heal <max_retries> <decay> <hex,hex,…> ChaperoneLoop.heal with a scripted generator -> outcome final tagged [attempts] folded: …
   schema <spec> (again)                  another schema class of the same name on the same Chaperones
 """
@@ -54,6 +57,11 @@ PINNED_REPAIRS = [
     (r':\s*undefined\b', ': null', "converted_undefined"),
     (r':\s*NaN\b', ': null', "converted_nan"),
 ]
+# entries that overriding instances / subclasses add (ids continue the pinned numbering)
+EXTRA_PATTERNS = [(r'<output>([\s\S]*?)</output>', "output_tag")]
+EXTRA_REPAIRS = [(r'\bnil\b', 'null', "converted_nil")]
+ALL_PATTERNS = PINNED_PATTERNS + EXTRA_PATTERNS
+ALL_REPAIRS = PINNED_REPAIRS + EXTRA_REPAIRS
 STRAT_LETTERS = {"s": "STRICT", "e": "EXTRACTION", "l": "LENIENT", "r": "REPAIR"}
 CONV_SUFFIX = ["_str_to_int", "_str_to_float", "_num_to_str", "_str_to_bool", "_str_to_list"]
 OTHER_EXC = {"RecursionError": 1, "TypeError": 2, "ValueError": 3, "KeyError": 4, "AttributeError": 5,
@@ -279,8 +287,8 @@ class RecRe:
     """stands in for the module `re` inside operon_ai.organelles.chaperone"""
 
     def __init__(self):
-        self.pat = {(p, PINNED_FLAGS): i for i, (p, _) in enumerate(PINNED_PATTERNS)}
-        self.rep = {(p, r, 0, 0): i for i, (p, r, _) in enumerate(PINNED_REPAIRS)}
+        self.pat = {(p, PINNED_FLAGS): i for i, (p, _) in enumerate(ALL_PATTERNS)}
+        self.rep = {(p, r, 0, 0): i for i, (p, r, _) in enumerate(ALL_REPAIRS)}
 
     def findall(self, pattern, string, flags=0):
         if not REC.active:
@@ -547,7 +555,7 @@ class C11(Prop):
     thorough_deadline_s = 800
     all_branches = ["hit", "fail", "hitx:s", "hitx:e", "hitx:l", "hitx:r", "failx", "err:json", "err:validation",
                     "err:noValidJson", "err:noJson", "err:msg-jd", "err:msg-ve", "err:msg-other",
-                    "conv:0", "conv:1", "conv:2", "conv:3", "conv:4", "conv:raise", "heal:v", "heal:h", "heal:d"]
+                    "conv:0", "conv:1", "conv:2", "conv:3", "conv:4", "conv:raise", "heal:v", "heal:h", "heal:d", "map:ok", "map:raise", "map:skip"]
     assumptions = [
         "json.loads, re.findall, re.sub, schema.model_validate and Chaperone._coerce_types_tracked are environment: "
         "arbitrary functions that return or raise (the theorems hold for every such environment); the harness "
@@ -609,8 +617,29 @@ class C11(Prop):
         self.factory = SchemaFactory()
         self.strat = {k: getattr(m.FoldingStrategy, v) for k, v in STRAT_LETTERS.items()}
         self.strat_letter = {v: k for k, v in self.strat.items()}
-        self.pattern_names = {f"extracted_via_{n}": f"x{i}" for i, (_, n) in enumerate(PINNED_PATTERNS)}
-        self.repair_names = {n: f"r{i}" for i, (_, _, n) in enumerate(PINNED_REPAIRS)}
+        self.pattern_names = {f"extracted_via_{n}": f"x{i}" for i, (_, n) in enumerate(ALL_PATTERNS)}
+        self.repair_names = {n: f"r{i}" for i, (_, _, n) in enumerate(ALL_REPAIRS)}
+        from operon_ai.core import types as core_types
+        self.core_types = core_types
+
+    @staticmethod
+    def ids_of(tok):
+        return [] if tok == "-" else [int(x) for x in tok.split(",") if x.isdigit()]
+
+    def apply_tables(self, target, ptok, rtok):
+        """re-assign the public tables (on an instance, or on a subclass)"""
+        target.JSON_EXTRACTION_PATTERNS = [ALL_PATTERNS[i] for i in self.ids_of(ptok) if i < len(ALL_PATTERNS)]
+        target.JSON_REPAIRS = [ALL_REPAIRS[i] for i in self.ids_of(rtok) if i < len(ALL_REPAIRS)]
+
+    MAP_FNS = {
+        "id": lambda s: s,
+        "copy": lambda s: s.model_copy() if hasattr(s, "model_copy") else s,
+        "tag": lambda s: ("tagged", repr(s)),
+        "rv": lambda s: (_ for _ in ()).throw(ValueError("boom")),
+        "rk": lambda s: (_ for _ in ()).throw(KeyError("k")),
+        "r0": lambda s: (_ for _ in ()).throw(RuntimeError()),
+        "rt": lambda s: (_ for _ in ()).throw(TypeError("t")),
+    }
 
     @staticmethod
     def show_conf(c) -> str:
@@ -651,6 +680,7 @@ class C11(Prop):
         REC.reset_case()
         S = self.factory.get("a:int")
         spec = "a:int"
+        last_report = [None]     # the FoldedProtein of the last fold / map
         chs = []                 # every Chaperone of this case stays alive
         owns = []                # what each instance was told to use, from the protocol lines alone (for the oracle)
         ch = None
@@ -686,6 +716,61 @@ class C11(Prop):
                     emit(line, "ok")
                 except Exception as e:      # an observation, judged like every other one
                     emit(line, f"raise:{type(e).__name__}")
+            elif t[0] == "newsub" and len(t) == 4:
+                try:
+                    Sub = type("TunedChaperone", (m.Chaperone,), {})
+                    self.apply_tables(Sub, t[2], t[3])
+                    ch = Sub(strategies=self.strategies_of(t[1]), silent=True)
+                    chs.append(ch)
+                    owns.append(list(t[1]) if t[1] not in ("none", "-") else list("selr"))
+                    ctor = "".join(owns[-1])
+                    emit(line, "ok")
+                except Exception as e:
+                    emit(line, f"raise:{type(e).__name__}")
+            elif t[0] == "tables" and len(t) == 3:
+                try:
+                    self.apply_tables(current(), t[1], t[2])
+                    emit(line, "ok")
+                except Exception as e:
+                    emit(line, f"raise:{type(e).__name__}")
+            elif t[0] == "map" and len(t) == 2 and t[1] in self.MAP_FNS:
+                if last_report[0] is None:
+                    emit(line, "no-report")
+                    continue
+                p0 = last_report[0]
+                called = [0]
+                fn = self.MAP_FNS[t[1]]
+
+                def recorded(sv, _fn=fn, _name=t[1]):
+                    called[0] += 1
+                    sid0 = REC.sid(sv)
+                    try:
+                        out = _fn(sv)
+                    except Exception as e:
+                        REC.pending.append(f"env M {_name} {sid0} raise {REC.exc_token(e)}")
+                        raise
+                    REC.pending.append(f"env M {_name} {sid0} ok {REC.sid(out)}")
+                    return out
+                err = None
+                q = None
+                try:
+                    q = p0.map(recorded)
+                except Exception as e:
+                    err = e
+                for el in REC.take_pending():
+                    emit(el, "ok")
+                info = {"op": "map", "result": q, "error": err, "before": p0, "fn": t[1], "called": called[0]}
+                if err is not None:
+                    emit(line, f"raise:{type(err).__name__}", info)
+                    continue
+                try:
+                    emit(line, " ".join([show_bool(q.valid is True), "none" if q.structure is None else str(REC.sid(q.structure)),
+                                         show_bool(q.error_trace is not None), show_bool(q.raw_peptide_chain == p0.raw_peptide_chain),
+                                         str(q.folding_attempts), show_bool(called[0] > 0)]), info)
+                    last_report[0] = q
+                except Exception as e:
+                    info["error"] = e
+                    emit(line, f"raise:{type(e).__name__}", info)
             elif t[0] == "use" and len(t) == 2:
                 i = int(t[1]) if t[1].isdigit() else -1
                 if 0 <= i < len(chs):
@@ -766,6 +851,8 @@ class C11(Prop):
                     notes = self.notes_of(r)
                     atts = [self.strat_letter.get(a.strategy, "?") + show_bool(a.success) for a in r.attempts]
                     head += [su, conf, "[" + ",".join(notes) + "]", "[" + ",".join(atts) + "]"]
+                if t[0] == "fold":
+                    last_report[0] = r
                 emit(line, " ".join(head + [calls]), info)
             elif t[0] == "heal" and len(t) == 4:
                 outs = [unhexs(h) for h in t[3].split(",")]
@@ -841,6 +928,20 @@ class C11(Prop):
         FS = self.m.FoldingStrategy
         pairs = {}
         for idx, (line, o, x) in enumerate(zip(case["lines"], obs, extra)):
+            if x and x.get("op") == "map":
+                # every report the API hands out: valid => a structure, no error trace; invalid => no structure, a trace
+                if x["error"] is not None:
+                    out.append(Violation("folding_never_raises", "a FoldedProtein", f"raise:{type(x['error']).__name__}", idx))
+                    continue
+                q = x["result"]
+                if q.valid:
+                    if q.structure is None or q.error_trace is not None:
+                        out.append(Violation("valid_report_has_a_structure", "structure present, no error trace",
+                                             f"structure={q.structure!r} trace={q.error_trace!r}"[:200], idx))
+                elif q.structure is not None or not isinstance(q.error_trace, str):
+                    out.append(Violation("invalid_has_no_structure_and_a_trace", "structure None, an error trace",
+                                         f"structure={q.structure!r} trace={q.error_trace!r}"[:200], idx))
+                continue
             if x and x.get("op") == "heal":
                 out.extend(self.oracle_heal(idx, x))
                 continue
@@ -1065,6 +1166,8 @@ class C11(Prop):
             lambda s: "Here you go: " + s + " thanks!",
             lambda s: "Sure.\n```json\n" + s + "\n```\nLet me know.",
             lambda s: "<json>" + s + "</json>",
+            lambda s: "<output>" + s + "</output>",
+            lambda s: s.replace("null", "nil"),
             lambda s: s.replace('"', "'"),
             lambda s: (s[:-1] + ",}") if s.endswith("}") else s,
             lambda s: s.replace("]", ", ]", 1),
@@ -1144,6 +1247,15 @@ class C11(Prop):
                         n_inst += 1
                     elif y < 0.55:
                         lines.append(f"use {rng.randrange(n_inst)}")
+                    if rng.random() < 0.3:
+                        # re-assigned public tables: an added <output> pattern, an added nil->null repair, reduced tables
+                        pt = rng.choice(["0,1,2,3,4", "5,0,1,2,3,4", "0,1,2,3,4,5", "3,4", "5", "-"])
+                        rt = rng.choice(["0,1,2,3,4,5,6,7,8,9", "0,1,2,3,4,5,6,7,8,9,10", "10,0,1", "0,1", "5,6,7", "-"])
+                        if rng.random() < 0.5 and n_inst < 4:
+                            lines.append(f"newsub {rng.choice(['none', 'none', 're', 'er'])} {pt} {rt}")
+                            n_inst += 1
+                        else:
+                            lines.append(f"tables {pt} {rt}")
                     if rng.random() < 0.35:
                         lines.append("tune " + rng.choice(["reverse", "clear", "remove:s", "remove:s", "remove:e", "remove:r",
                                                            "append:s", "append:r", "append:l", "remove:l"]))
@@ -1172,6 +1284,9 @@ class C11(Prop):
                         lines.append(f"{op} {hexs(raw)} {st}")
                 elif x < 0.5:
                     lines.append(self.rand_heal(rng, fields))
+                elif x < 0.62 and "fold" in ops:
+                    for _ in range(rng.choice([1, 1, 2, 3])):
+                        lines.append("map " + rng.choice(["id", "copy", "tag", "rv", "rk", "r0", "rt", "rv"]))
             lines.append("stats")
             yield {"lines": lines, "note": "random"}
 
@@ -1202,6 +1317,12 @@ class C11(Prop):
         return out
 
     def exhaustive(self, tier):
+        # one driver start costs ~1.3 s: the sub-spaces are enumerated completely but handed over as one batch
+        spaces = self.exhaustive_spaces(tier)
+        name = "; ".join(f"{sp['name']} ({len(sp['cases'])})" for sp in spaces)
+        return [{"name": name, "cases": [c for sp in spaces for c in sp["cases"]]}]
+
+    def exhaustive_spaces(self, tier):
         spec = "a:int,b:osd"
         raws = ['{"a": 1, "b": "x"}', 'Result: {"a": "2"} ok', "{'a': 3, 'b': None,}", '```json\n{"a": 4}\n```',
                 '{"a": "four"}', 'no json here']
@@ -1276,7 +1397,25 @@ class C11(Prop):
                       "use 0", f"foldx {hexs(clean)} none", f"fold {hexs(clean)} none", f"heal 1 1/10 {hexs(clean)}", "stats",
                       "use 1", "stats"]
                 crowd_cases.append({"lines": L, "note": "several Chaperones alive; one instance's strategies list edited in place"})
-        return [{"name": "several Chaperone instances, in-place edits of one instance's public strategies list", "cases": crowd_cases},
+        map_cases = []
+        for raw in ['{"a": 1}', 'nope']:
+            for fns in [["id"], ["copy", "tag"], ["rv"], ["rk", "id"], ["r0"], ["rt", "rv"], ["tag", "r0", "copy"]]:
+                map_cases.append({"lines": [f"schema {spec}", "new none", f"fold {hexs(raw)} none"] + [f"map {f}" for f in fns]
+                                  + [f"foldx {hexs(raw)} none", "map id", "stats"],
+                                  "note": "FoldedProtein.map with returning / raising functions on valid and invalid reports"})
+        table_cases = []
+        texts = ['<output>{"a": 1}</output>', "{'a': 2, 'b': nil}", 'x {"a": 3,} y', '```json\n{"a": 4}\n```', "{'a': 5,}"]
+        for how in ["tables", "newsub"]:
+            for pt, rt in [("0,1,2,3,4,5", "0,1,2,3,4,5,6,7,8,9,10"), ("5", "10"), ("3,4", "0,1"), ("-", "-"), ("5,3", "2,3,5,10")]:
+                for st in ["none", "e", "r", "l", "rel"]:
+                    L = [f"schema {spec}"] + (["new none", f"tables {pt} {rt}"] if how == "tables" else [f"newsub none {pt} {rt}"])
+                    for raw in texts:
+                        L += [f"fold {hexs(raw)} {st}", f"foldx {hexs(raw)} {st}"]
+                    L += ["stats", "new none", f"fold {hexs(texts[0])} {st}", f"foldx {hexs(texts[0])} {st}"]
+                    table_cases.append({"lines": L, "note": "instances / subclasses that re-assign the public regex tables"})
+        return [{"name": "FoldedProtein.map: function behaviours x valid/invalid reports", "cases": map_cases},
+                {"name": "re-assigned extraction / repair tables (instance and subclass) x strategies", "cases": table_cases},
+                {"name": "several Chaperone instances, in-place edits of one instance's public strategies list", "cases": crowd_cases},
                 {"name": "healing loop: decay x max_retries x number of misfolds", "cases": heal_cases},
                 {"name": "same-named schema classes alternating on one Chaperone", "cases": switch_cases},
                 {"name": "deep nesting, scalar and null documents, coercion table x single strategies", "cases": edge_cases},
